@@ -52,6 +52,7 @@ m('c12_accessor_order', 'C12', MO, "        results = list(valid_results.values(
 m('c12_flat_dict_conflict', 'C12', MO, "            if raise_if_conflicts and overlapping_keys:", "            if raise_if_conflicts and len(overlapping_keys) > 1:", 'single-key conflicts not reported')
 # ---- C13
 m('c13_evict_pending_first', 'C13', S, "        # First remove completed events (oldest first)\n        if completed_events and events_to_remove_count > 0:", "        # First remove completed events (oldest first)\n        if completed_events and events_to_remove_count > 0 and not pending_events:", 'completed spared while pending exist')
+m('c13_no_age_sort', 'C13', S, "        completed_events.sort(key=lambda x: x[1].event_created_at.timestamp())  # pyright: ignore[reportUnknownMemberType, reportUnknownLambdaType]\n", "        pass\n", 'completed events evicted in dispatch order instead of oldest-created first')
 m('c13_off_by_one', 'C13', S, "        events_to_remove_count = total_events - self.max_history_size\n", "        events_to_remove_count = total_events - self.max_history_size - 1\n", 'bound off by one')
 # ---- C14
 m('c14_swallow_full', 'C14', S, "                raise  # could also block indefinitely until queue has space, but dont drop silently or delete events", "                return event  # could also block indefinitely until queue has space", 'QueueFull swallowed: silent drop')
